@@ -241,6 +241,7 @@ pub async fn h2_connect(conn: PeerConn, p: H2Params, rng: Rng) -> Result<H2Clien
         conn,
         seg: p.seg,
         rng,
+        pace: None,
     };
     let (send, connection) = h2::client::Builder::new()
         .initial_window_size(p.initial_window)
